@@ -236,8 +236,8 @@ def check(ctx):
     ok = len(nores) == 1 and nores[0].req_states == {"CONNECTED"} and str(nores[0].value).startswith("ERROR_")
     ctx.ob("R3", "NO_RESPONSE::leaves-CONNECTED", ok, "the RUNNING_PING_NO_RESPONSE row does not move CONNECTED to an error state", he.loc)
     con = repo.method("GeckoAsyncSpa", "_connect")
-    from ..facts import started_tasks
-    started = any(isinstance(a, ast.Call) and call_name(a) == "_ping_loop" for a, _nm, _k, _n in started_tasks(repo, con))
+    from ..facts import connection_tasks
+    started = any(t["coroutine"] == "_ping_loop" for t in connection_tasks(repo))   # _connect interpreted on a model event loop
     ctx.ob("R3", "_connect::starts-ping-loop", started, "GeckoAsyncSpa._connect does not start the ping loop", con.loc)
     ctx.rule("R4", "what a (re)connect downloads is the spa's block: the status-block transfer behind connect and refresh installs exactly the requested bytes or nothing, also when an attempt is abandoned part-way and retried (C01's async assembler model borrowed) - a necessary condition for 'values mirror the spa'")
     from .c01 import async_assembly_model
